@@ -154,7 +154,7 @@ func (g *gen) updates(name int, n int, relayer int) {
 		switch {
 		case r.Chance(1, 6):
 			u.Mode = []string{"wrongparent", "badseal", "unauthval", "oldtime", "wrongtype", "badsig", "notrusted", "future", "baddiff",
-				"driftedge", "driftok", "recent", "past", "past", "badheader", "badheader"}[r.Intn(16)]
+				"driftedge", "driftok", "recent", "past", "past", "badheader", "badheader", "otherrev"}[r.Intn(17)]
 			g.tag("update-" + u.Mode)
 		case r.Chance(1, 10):
 			signer = (relayer + 1 + r.Intn(nAccts-1)) % nAccts
@@ -401,10 +401,22 @@ func corpus() []Spec {
 	add("update-bad-header-bsc", reg, Step{Op: "create", Name: 0, C: bsc(200, false), K: ok}, upd("badheader"), upd("valid"))
 	add("update-bad-header-eth", reg, Step{Op: "create", Name: 0, C: eth(100, false), K: ok}, upd("badheader"), upd("valid"))
 	add("update-bad-header-tss", reg, Step{Op: "create", Name: 0, C: tss(0), K: ok}, upd("badheader"), upd("valid"))
-	// ETH: a consensus state with another root than the proposed header is accepted; when it is pruned (older than
-	// the trusting period while the client is Active) the header index is looked up by ITS root and the update fails
+	// ETH (aa5560b): a consensus state with another root than the proposed header is refused and nothing changes (before the
+	// repair it was installed and the update that had to prune it failed: the header index is looked up by ITS root)
 	add("eth-foreign-root-prune", reg, Step{Op: "create", Name: 0, C: ethShort(100, false), K: &KSpec{T: "same", AgeS: 60, Own: true, RootOK: false, ValsOK: true}},
-		upd("valid"), tick(1003), upd("valid"))
+		upd("valid"), tick(1003), upd("valid"),
+		Step{Op: "create", Name: 0, C: ethShort(100, false), K: ok}, upd("valid"),
+		Step{Op: "upgrade", Name: 0, C: ethShort(3, true), K: &KSpec{T: "same", AgeS: 60, Own: true, RootOK: false, ValsOK: true}},
+		Step{Op: "toggle", Name: 0, C: tss(0), K: ok},
+		Step{Op: "toggle", Name: 0, C: ethShort(100, false), K: &KSpec{T: "same", AgeS: 60, Own: true, RootOK: false, ValsOK: true}})
+	// ... the roots are compared as 32-byte hashes (common.BytesToHash crops from the left): a 33-byte root ending in the header's
+	// root is the same root, is installed and is found again when it is pruned
+	add("eth-root-33-bytes", reg, Step{Op: "create", Name: 0, C: ethShort(100, false), K: &KSpec{T: "same", AgeS: 60, Own: true, RootOK: true, ValsOK: true, RootPad: 1}},
+		upd("valid"), texp("first", 1), upd("valid"), upd("valid"))
+	// ETH (1e12297, 072bc15): a header of another revision number and a header older than the trusting period are refused
+	add("eth-other-revision", reg, Step{Op: "create", Name: 0, C: eth(100, false), K: ok}, upd("otherrev"), upd("valid"))
+	add("eth-old-header", reg, Step{Op: "create", Name: 0, C: ethShort(100, false), K: &KSpec{T: "same", AgeS: 60, Own: false, RootOK: true, ValsOK: true}},
+		tick(1100), upd("valid"))
 	// C18c: consensus state of another client type
 	add("c18c-eth+tm-cons", Step{Op: "create", Name: 0, C: eth(100, false), K: &KSpec{T: "tm", AgeS: 60, RootOK: true, ValsOK: true}})
 	add("c18c-tss+tm-cons", Step{Op: "create", Name: 0, C: tss(0), K: &KSpec{T: "tm", AgeS: 60, RootOK: true, ValsOK: true}})
